@@ -1,9 +1,9 @@
 """C19 — configuration of ./check C19 (PROP) and the MANIFEST claim (CLAIM)."""
 PROP = dict(
-    modules=["CG.Props.C19"],
+    modules=["CG.Props.C19", "CG.Props.Genesis"],
     required_theorems=["C19_serialisation_80", "C19_serialisation_injective", "C19_ord_numeric", "C19_target_value",
                        "C19_target_total", "C19_validate_eq_spec", "C19_validate_iff", "C19_validate_no_panic",
-                       "C19_median_is_sorted_middle"],
+                       "C19_median_is_sorted_middle", "C19_genesis_blocks_consistent"],
     rule="c19.validate: every exponent 0..255 x boundary mantissas x hash at target-1/target/target+1/random; predecessor "
          "lists of length 0..15 (+ some longer) with duplicates and a candidate below/at/above the median; c19.cmp: equal, "
          "adjacent, one-byte-different and random 256-bit pairs; c19.hash: random headers with boundary u32 fields. "
